@@ -387,12 +387,44 @@ def strategy_100k(tier):
     return st.one_of(case('pdb'), case('gro'))
 
 
+def _enum_serial_limit(tier, shard, nshards):
+    """Systems whose last PDB serial (one per atom, one per TER) is exactly 99999 or 99998: they fit the five-digit numbering,
+    so bonds and molecule division must come back."""
+    atom = {'name': 'CA', 'resname': 'ALA', 'resid': 1, 'chain': 'A', 'icode': None, 'element': 'C', 'pos': [100, 200, 300],
+            'vel': [0, 0, 0]}
+    other = dict(atom, name='OW', resname='W', chain='B', element='O', pos=[-500, 0, 40])
+    small = {'atoms': [dict(other), dict(other, name='HW1', element='H', pos=[-400, 0, 40]), dict(other, name='HW2', element='H', pos=[-500, 90, 40])],
+             'edges': [[0, 1], [0, 2]], 'key0': 0, 'keystep': 1, 'atomid0': None}
+    cases = []
+    # many molecules rather than one huge one: read_pdb numbers the atoms of a molecule with max(molecule) + 1, which is
+    # quadratic in the size of the molecule
+    for last_serial, n_mols, n_small in ((99999, 1000, 1), (99998, 1000, 2), (99999, 100, 0)):
+        n_atoms = last_serial - n_mols
+        per_mol = (n_atoms - 3 * n_small) // (n_mols - n_small)
+        rest = n_atoms - 3 * n_small - per_mol * (n_mols - n_small)
+        mols = []
+        for m in range(n_mols - n_small):
+            mols.append({'atoms': [dict(atom, resid=1 + m % 9000)], 'edges': [], 'key0': 0, 'keystep': 1, 'atomid0': None,
+                         'tiles': per_mol + (1 if m < rest else 0), 'resid_step': 0, 'tile_shift': 3, 'link_tiles': True})
+        mols += [dict(small) for _ in range(n_small)]
+        cases.append({'fmt': 'pdb', 'mols': mols, 'velocities': False, 'precision': 7, 'last_serial': last_serial})
+    for i, case in enumerate(cases):
+        if i % nshards == shard:
+            yield case
+
+
+def _run_serial_limit(case):
+    out = run(case)
+    return Outcome(list(out.classes) + ['last-serial-%d' % case['last_serial']], True)
+
+
 PARTS = [
     Part('small', run, strategy=strategy_small, examples={'quick': 1600, 'thorough': 40000},
          floors={'pdb': 0.4, 'gro': 0.2, 'bonds': 0.2, 'degree>4': 0.02, 'overflow-name': 0.1, 'overflow-resid': 0.05,
                  'overflow-coord': 0.03, 'multi-mol': 0.3}),
     Part('around-10k-atoms', run, strategy=strategy_10k, examples={'quick': 48, 'thorough': 480},
          floors={'bonds-at-serial>=10000': 0.2}, shrink_budget={'quick': 12, 'thorough': 100}, per_shard_min=3),
+    Part('pdb-serial-limit', _run_serial_limit, enumerate=_enum_serial_limit),
     Part('around-100k-atoms', run, strategy=strategy_100k, examples={'quick': 0, 'thorough': 48},
          shrink_budget={'quick': 5, 'thorough': 20}, per_shard_min=3),
 ]
